@@ -27,7 +27,8 @@ PlanC == SubSeq(<< P(E1V, E1A), P(E2V, E2A), P(E3V, E3A) >>, 1, NEp)
 
 T0 == 1000
 DefN == 100
-AscTab(v) == CASE v = 1 -> <<2, 4, 2>> [] v = 2 -> <<2, 3, 2>> [] OTHER -> <<2, 11, 1>>
+AscTab(v) == CASE v = 1 -> <<2, 4, 2>> [] v = 2 -> <<2, 3, 2>> [] v = 4 -> <<2, 3, 6>> [] v = 5 -> <<1, 4, 7>>
+               [] v = 6 -> <<4, 0, 2>> [] v = 7 -> <<2, 12, 4>> [] OTHER -> <<2, 11, 1>>
 
 K(name, key, cts, nals, newps) == [name |-> name, key |-> key, cts |-> cts, nals |-> nals, newps |-> newps]
 PsSeq == IF vc = "hevc" THEN <<"vps", "sps", "pps">> ELSE <<"sps", "pps">>
